@@ -1160,20 +1160,10 @@ def _subst_plan(circuit: Circuit, opts: dict) -> Plan:
     def post(ctx: Ctx) -> Iterator[tuple[str, dict]]:
         if len(ctx.a_top) != len(ctx.b_top):
             yield 'operation_count_changed', {'ops': [len(ctx.b_top), len(ctx.a_top)]}
+        # operations outside the filter keep their gate and location
         b = _rejected_multiset(ctx.before, fname)
-        a = Counter()
-        f = FILTERS[fname]
-        new = 0
-        for op in ctx.after:
-            if op.gate == GATES[gname] and (repr(op.gate), tuple(op.location)) not in b:
-                new += 1
-            elif not f(op):
-                a[(repr(op.gate), tuple(op.location))] += 1
-        # operations outside the filter keep gate and location; the
-        # substituted ones carry the requested gate
-        b_keep = Counter({k: v for k, v in b.items()})
-        a_all = _rejected_multiset(ctx.after, fname)
-        missing = {str(k): [v, a_all.get(k, 0)] for k, v in b_keep.items() if a_all.get(k, 0) < v}
+        a = _rejected_multiset(ctx.after, fname)
+        missing = {str(k): [v, a.get(k, 0)] for k, v in b.items() if a.get(k, 0) < v}
         if missing:
             yield 'unfiltered_operation_changed', {'missing': missing}
     return Plan(
@@ -1443,9 +1433,7 @@ def _walsh_plan(circuit: Circuit, opts: dict) -> Plan:
     m = 2 ** circuit.num_qudits
     return Plan(
         [WalshDiagonalSynthesisPass(opts['precision'])], 'exact',
-        [post_introduced_subset(['CNOT', 'RZ']), post_radixes_same,
-         lambda ctx: iter([('foreign_gate', {'gates': [repr(g) for g in gate_counter(ctx.a_leaf)]})]
-                          if any(g not in gates_of(['CNOT', 'RZ']) for g in gate_counter(ctx.a_leaf)) else [])],
+        [_post_only(lambda ctx: gates_of(['CNOT', 'RZ'])), post_radixes_same],
         extra_budget=(m * opts['precision']) ** 2,
     )
 
